@@ -605,7 +605,7 @@ func cmdRun(args []string) int {
 	solverKind := fs.String("solver", "z3-new", "solver")
 	noReplay := fs.Bool("noreplay", false, "skip native replay (candidates are then not reported as violations)")
 	keep := fs.Bool("keep", false, "keep worker outputs")
-	budget := fs.Duration("budget", 0, "wall budget for the whole exploration, shared fairly among the workers (default 12m quick, 45m thorough)")
+	budget := fs.Duration("budget", 0, "wall budget for the whole exploration, shared fairly among the workers (default 12m quick, 25m thorough)")
 	fs.Parse(args)
 	if *prop == "" {
 		fmt.Fprintln(os.Stderr, "run: -prop required")
@@ -648,7 +648,7 @@ func cmdRun(args []string) int {
 	if *budget == 0 {
 		*budget = 12 * time.Minute
 		if *tier == "thorough" {
-			*budget = 45 * time.Minute
+			*budget = 25 * time.Minute
 		}
 	}
 	// every worker gets a fair share of what is left of the overall budget when it starts:
